@@ -170,7 +170,8 @@ def run(ctx):
     ns = 0
     for f in e3.may_raise():
         if f.path is not None and model.is_timer_entry(f.path.entry) or \
-                any(s in (rolesmod.get(model).sweep_all, rolesmod.get(model).sweep_app) for s in f.event["stack"]):
+                any(s in (rolesmod.get(model).sweep_all, rolesmod.get(model).sweep_app)
+                    for x in e3.occurrences(f) for s in x["stack"]):
             ns += 1
             ctx.ob("R10.sweep", "may-raise %s at %s" % (f.may_raise, f.construct), False,
                    f.site, f.detail + "; prune_all_apps has no per-app isolation, so the "
